@@ -143,6 +143,7 @@ type c11snap struct {
 	fields  map[string][]string
 	relData map[string][]string
 	incl    []string
+	url     string // everything else the URL carries, order-sensitive
 }
 
 func setSnapshot(res jsonapi.Resource) resSnap {
@@ -175,7 +176,32 @@ func c11snapshot(b *docBuilt) c11snap {
 		s.incl = append(s.incl, r.GetType().Name+"/"+id)
 	}
 	sort.Strings(s.incl)
+	var inc [][]string
+	for _, path := range b.URL.Params.Include {
+		var names []string
+		for _, rl := range path {
+			names = append(names, rl.FromType+"."+rl.FromName)
+		}
+		inc = append(inc, names)
+	}
+	s.url = jsonStr(map[string]any{"fragments": b.URL.Fragments, "filter": filterText(b.URL.Params.Filter), "label": b.URL.Params.FilterLabel,
+		"sort": b.URL.Params.SortingRules, "page": b.URL.Params.Page, "include": inc, "type": b.URL.ResType, "id": b.URL.ResID})
 	return s
+}
+
+// filterText writes a filter tree with its values in the order they are held.
+func filterText(f *jsonapi.Filter) string {
+	if f == nil {
+		return "nil"
+	}
+	if kids, ok := f.Val.([]*jsonapi.Filter); ok {
+		parts := []string{}
+		for _, k := range kids {
+			parts = append(parts, filterText(k))
+		}
+		return f.Op + "(" + strings.Join(parts, ",") + ")"
+	}
+	return fmt.Sprintf("%s %s %#v", f.Field, f.Op, f.Val)
 }
 
 func (a c11snap) diff(b c11snap) string {
@@ -195,6 +221,9 @@ func (a c11snap) diff(b c11snap) string {
 	}
 	if !sameSeq(a.incl, b.incl) {
 		return fmt.Sprintf("included list %v -> %v", a.incl, b.incl)
+	}
+	if a.url != b.url {
+		return fmt.Sprintf("URL %s -> %s", a.url, b.url)
 	}
 	return ""
 }
@@ -269,6 +298,40 @@ func (m c11) check(c *Ctx, d *DocSpec, r *RNG, reps, perms int) (string, bool) {
 		if string(out) != string(first) {
 			c.Violate("nondeterministic-output", "marshal #%d (%s) differs from marshal #0 (%s):\n%s\n%s\n%s", i, how, firstDesc, clip(string(first), 900), clip(string(out), 900), desc())
 			return "", false
+		}
+	}
+	// the SAME document again after its included list was permuted in place (same length), and a copy of the
+	// Document value with a permuted list
+	if same != nil && len(same.Doc.Included) >= 2 {
+		for round := 0; round < 3; round++ {
+			var out []byte
+			ok := true
+			if pi := Guard(func() {
+				doc := same.Doc
+				if round == 2 {
+					cp := *same.Doc
+					cp.Included = append([]jsonapi.Resource{}, same.Doc.Included...)
+					doc = &cp
+				}
+				perm := r.Perm(len(doc.Included))
+				shuffled := make([]jsonapi.Resource, len(doc.Included))
+				for i, j := range perm {
+					shuffled[i] = doc.Included[j]
+				}
+				copy(doc.Included, shuffled)
+				out, ok = m.marshalOnce(c, &docBuilt{Doc: doc, URL: same.URL})
+			}); pi != nil {
+				c.Violate("panic@"+pi.Frame+"/in-place-permutation", "%s", pi)
+				return "", false
+			}
+			if !ok {
+				return "", false
+			}
+			c.Count("in_place_included_permutations")
+			if string(out) != string(first) {
+				c.Violate("output-depends-on-order/in-place", "the included list of an already marshaled document was permuted in place and the output changed:\n%s\n%s\n%s", clip(string(first), 900), clip(string(out), 900), desc())
+				return "", false
+			}
 		}
 	}
 	for p := 0; p < perms; p++ {
